@@ -28,6 +28,12 @@ fn run(ctx: &RunCtx) -> Report {
     // (API flavour) decoded from the run index, so a batch walks all arrival orders of up to 6 items
     let enumerated = if ctx.index % 3 == 1 { Some(decode_enumerated(ctx.index / 3)) } else { None };
     let long_stream = long_stream && enumerated.is_none();
+    // 1 plain run in 5 (own random stream): the *late holder* family - the replica with the newest item answers
+    // only after 0.52..1.3 s, later than the request timeout, while a chain of relays (each listing the next
+    // relay and a dead contact, for this target only) keeps the lookup running. The node accepts such an
+    // answer by design as long as the lookup is alive, so the item was "delivered by the lookup".
+    let mut lrng = Rng::new(crate::rng::key(ctx.seed, &[crate::rng::tag("c16-late-holder")]));
+    let late_family = enumerated.is_none() && !long_stream && lrng.chance(1, 5);
     let n = match &enumerated {
         Some(e) => e.n,
         None if long_stream => rng.usize(21, 40),
@@ -94,13 +100,52 @@ fn run(ctx: &RunCtx) -> Report {
     for i in 0..n {
         rawnet.with_peer(i, |p| p.knows = (0..n).collect());
     }
+    if late_family {
+        let m = lrng.usize(3, 7);
+        let base = n;
+        // relays base..base+m, late holder base+m
+        for i in 0..m {
+            let mut p = Peer::new(lrng.id(), SocketAddrV4::new(priv_ip(60 + i), 6881));
+            p.k = 20;
+            p.delay = lrng.range(120, 320) * MS;
+            p.extra_nodes.push((lrng.id(), SocketAddrV4::new(priv_ip(90 + i), 6881))); // nobody lives there
+            rawnet.add(&sim, p);
+        }
+        let newest = Item::signed(&key, salt.as_deref(), 5000, b"newest, held by the slow replica");
+        let mut l = Peer::new(lrng.id(), SocketAddrV4::new(priv_ip(80), 6881));
+        l.k = 20;
+        l.delay = lrng.range(520, 1300) * MS;
+        l.mutable.insert(target, newest);
+        let li = rawnet.add(&sim, l);
+        for i in 0..m {
+            let mut knows = vec![];
+            if i + 1 < m {
+                knows.push(base + i + 1);
+            }
+            if i == 0 {
+                knows.push(li);
+            }
+            rawnet.with_peer(base + i, |p| p.knows = knows);
+        }
+        rawnet.with_peer(0, |p| p.knows.push(base));
+        // relays and the late holder exist for lookups of this target only (the reader's table never holds
+        // them, so they are reached one round after the other)
+        rawnet.set_hook(Box::new(move |_rctx, _sh, idx, _from, msg: &Krpc| {
+            if idx >= base && msg.target() != Some(target) {
+                HookResult::Handled
+            } else {
+                HookResult::Default
+            }
+        }));
+        report.probe("late_holder_runs", 1);
+    }
     let mut spec = NodeSpec::new(priv_ip(1), 6881);
     spec.bootstrap = addrs.iter().map(|a| a.to_string()).collect();
     let reader = sim.add_node(spec);
     sim.run_for(2 * SEC);
 
     let use_sync = if long_stream { rng.chance(1, 2) } else { rng.chance(1, 4) };
-    let use_sync = enumerated.as_ref().map(|e| e.sync).unwrap_or(use_sync);
+    let use_sync = enumerated.as_ref().map(|e| e.sync).unwrap_or(use_sync) && !late_family;
     if enumerated.is_some() {
         report.probe("enumerated_permutation_runs", 1);
     }
@@ -110,7 +155,7 @@ fn run(ctx: &RunCtx) -> Report {
     let mut result: Option<Option<(i64, Vec<u8>)>> = None;
     // 1 run in 5: the reader itself has a put_mutable for this key in flight; the call then joins
     // that put's lookup and must also see what the lookup has already received
-    let with_put = !use_sync && rng.chance(1, 4) && enumerated.is_none();
+    let with_put = !use_sync && rng.chance(1, 4) && enumerated.is_none() && !late_family;
     let t_put = sim.now();
     let mut put_item: Option<(i64, Vec<u8>)> = None;
     if with_put {
@@ -131,6 +176,7 @@ fn run(ctx: &RunCtx) -> Report {
         report.probe("put_in_flight_runs", 1);
     }
     let t_call = sim.now();
+    let mut async_op: Option<OpId> = None;
     if use_sync {
         let salt2 = salt.clone();
         let h = sim.sync_call(reader, move |d| d.get_mutable_most_recent(&pk, salt2.as_deref()).map(|i| (i.seq(), i.value().to_vec())));
@@ -152,6 +198,7 @@ fn run(ctx: &RunCtx) -> Report {
         report.probe("sync_api_runs", 1);
     } else {
         let op = sim.get_mutable_most_recent(reader, pk, salt.clone());
+        async_op = Some(op);
         if !sim.run_ops(&[op], sim.now() + 60 * SEC) {
             report.violate("hang", "most-recent-hang", "AsyncDht::get_mutable_most_recent did not return within 60 s".into());
         }
@@ -164,6 +211,9 @@ fn run(ctx: &RunCtx) -> Report {
         report.probe("async_api_runs", 1);
     }
 
+    let t_done = async_op.and_then(|op| sim.with_op(op, |o| o.done_at)).unwrap_or(u64::MAX);
+    let late_counted = std::cell::Cell::new(0u64);
+    let late_ambiguous = std::cell::Cell::new(false);
     let lookup_active_at_call = std::cell::Cell::new(false);
     let early_items: std::cell::RefCell<Vec<(i64, Vec<u8>)>> = Default::default();
     // delivered items, in arrival order, from the trace (replies that reached the reader in time)
@@ -171,6 +221,7 @@ fn run(ctx: &RunCtx) -> Report {
     let delivered: Vec<(i64, Vec<u8>)> = sim.with_trace(|tr| {
         let mut reqs: std::collections::BTreeMap<(SocketAddrV4, u32), u64> = std::collections::BTreeMap::new();
         let mut out: Vec<(u64, i64, Vec<u8>)> = vec![];
+        let mut late: Vec<(u64, u64, (SocketAddrV4, u32), i64, Vec<u8>)> = vec![];
         for d in tr.iter() {
             if d.t_send < t_put {
                 continue;
@@ -184,8 +235,38 @@ fn run(ctx: &RunCtx) -> Report {
                     if let (Some(v), Some(seq)) = (k.bytes_field("v"), k.int_field("seq")) {
                         if rtt < 500 * MS {
                             out.push((d.t_deliver.unwrap(), seq, v.to_vec()));
+                        } else if d.dup_of.is_none() && d.t_deliver.unwrap() <= t_done && t_done != u64::MAX {
+                            late.push((d.t_deliver.unwrap(), rtt, (d.src, k.tid_u32().unwrap_or(0)), seq, v.to_vec()));
                         }
                     }
+                }
+            }
+        }
+        // late answers: counted when another request of the lookup was certainly pending at their arrival
+        // (sent at most 450 ms earlier, unanswered) and the answer is younger than 2 s (certainly retained)
+        if !late.is_empty() {
+            let mut first_reply: std::collections::BTreeMap<(SocketAddrV4, u32), u64> = std::collections::BTreeMap::new();
+            for d in tr.iter() {
+                if d.dst != reader_addr || d.fate != Fate::Delivered {
+                    continue;
+                }
+                let Some(k) = Krpc::parse(&d.bytes) else { continue };
+                if k.is_query() {
+                    continue;
+                }
+                let key = (d.src, k.tid_u32().unwrap_or(0));
+                if reqs.contains_key(&key) {
+                    let e = first_reply.entry(key).or_insert(d.t_deliver.unwrap());
+                    *e = (*e).min(d.t_deliver.unwrap());
+                }
+            }
+            for (at, rtt, key, seq, v) in late {
+                let surely_active = reqs.iter().any(|(k2, sent2)| *k2 != key && *sent2 <= at && at - *sent2 <= 450 * MS && first_reply.get(k2).map(|t| *t > at).unwrap_or(true));
+                if surely_active && rtt < 2 * SEC {
+                    out.push((at, seq, v));
+                    late_counted.set(late_counted.get() + 1);
+                } else {
+                    late_ambiguous.set(true);
                 }
             }
         }
@@ -209,6 +290,15 @@ fn run(ctx: &RunCtx) -> Report {
         out.into_iter().filter(|o| o.0 > t_call).map(|o| (o.1, o.2)).collect()
     });
     let mut delivered = delivered;
+    if late_ambiguous.get() {
+        // a late answer arrived before the call returned at an instant where the trace cannot tell whether
+        // the lookup was still running: not judged
+        report.vacuous = true;
+        report.probe("late_answer_ambiguous_not_judged", 1);
+    } else if late_counted.get() > 0 {
+        report.probe("late_answers_that_count", late_counted.get());
+        report.probe("runs_with_a_late_answer_that_counts", 1);
+    }
     if with_put {
         let early = early_items.borrow().clone();
         if lookup_active_at_call.get() {
